@@ -9,6 +9,7 @@ mod wasm_driver;
 mod c02;
 mod c03;
 mod c04;
+mod c05;
 mod c07;
 mod c09;
 mod c10;
@@ -83,6 +84,7 @@ fn main() {
                     "c02" => c02::replay(c, &setup, cli.as_deref()),
                     "c03" => c03::replay(c),
                     "c04" => c04::replay(c),
+                    "c05" => c05::replay(c, cli.as_deref(), idx, thorough),
                     "c07" => c07::replay(c, thorough, cli.as_deref(), idx),
                     "c09" => c09::replay(c, thorough, cli.as_deref(), idx),
                     "c12" => c12::replay(c, &ls),
